@@ -185,6 +185,9 @@ pub struct MWorkflow {
     pub env: BTreeMap<String, Value>,
     pub setup: Vec<MAct>,
     pub steps: Vec<MStep>,
+    /// start events (`on:` entries, acts.event.manual)
+    #[serde(default)]
+    pub on: Vec<String>,
 }
 
 fn put(m: &mut Map<String, Value>, k: &str, v: Value) {
@@ -354,6 +357,9 @@ pub fn render_workflow(w: &MWorkflow) -> Value {
     }
     if !w.setup.is_empty() {
         put(&mut m, "setup", Value::Array(w.setup.iter().map(render_act).collect()));
+    }
+    if !w.on.is_empty() {
+        put(&mut m, "on", Value::Array(w.on.iter().map(|id| json!({"id": id, "uses": "acts.event.manual"})).collect()));
     }
     put(&mut m, "steps", Value::Array(w.steps.iter().map(render_step).collect()));
     Value::Object(m)
